@@ -12,13 +12,9 @@ TIMES = 5
 
 
 def select(ctx):
-    """quick: every NoClash pair + every 3rd clash pair (offset by the seed); thorough: the whole scope"""
+    """the whole small scope in both tiers (thorough runs more samples per program)"""
     alln = list(stagegen.c10_all())
-    if ctx.tier != "quick":
-        return alln, len(alln)
-    nc = [c for c in alln if c["noclash"]]
-    cl = [c for c in alln if not c["noclash"]]
-    return nc + cl[ctx.seed % 3::3], len(alln)
+    return alln, len(alln)
 
 
 def main(ctx, args):
@@ -32,11 +28,15 @@ def main(ctx, args):
     if not extract(ctx):
         ctx.finish()
     proved = prove(ctx, MODULES, drivers=["drv_c09"])
+    if not proved:
+        lake_build(["drv_c09"])
     if proved and ctx.tier == "thorough":
         proved = leancheck(ctx, MODULES)
     if not build_harness(ctx, bins=["c09", "runprog"]):
         ctx.finish()
     stats = collections.Counter()
+    global TIMES
+    TIMES = 5 if ctx.tier == "quick" else 24
     if args.replay:
         r = json.load(open(args.replay))
         pairs = [dict(orig_src=r["orig_src"], ren_src=r["src"], orig_sx=r.get("orig_sx"), ren_sx=r.get("sx"), noclash=r.get("noclash", True),
@@ -126,11 +126,11 @@ def main(ctx, args):
     ctx.coverage.update({
         "evaluations": stats["evaluations"],
         "distinct_nontrivial": len(nontriv),
-        "rule": "small-scope enumeration: 8 macro templates binding a local around / next to / from a splice (let, let-then-let, tuple pattern, lambda parameter, mem, assignment) "
+        "rule": "small-scope enumeration: 11 macro templates binding a local around / next to / from a splice (let, let-then-let, tuple pattern, lambda parameter, mem, assignment, if arm, inner block, rebinding) "
                 "x 7 argument codes over the pool {y,z,w} x use sites binding every subset of the pool as locals or a global x 4 continuations mentioning pool names "
                 "x every renaming of the binder within the pool or to a fresh name; each pair (original, renamed) runs %d samples on VM and WASM and on the model. "
                 "NoClash pairs must agree; non-trivial = NoClash pair accepted by the compiler; distinct = distinct pair of sources" % TIMES,
-        "exhaustive": ctx.tier != "quick" and not args.replay,
+        "exhaustive": not args.replay,
         "exhaustive_scope": f"{scope} pairs in scope, {len(pairs)} run",
         "samples": samples or [{"note": "replay mode"}],
         "traces_validated_against_impl": len(sxs),
